@@ -1,5 +1,5 @@
 from .. import facts
-from ..rules import sampling, filt, tables, status, factors, codec
+from ..rules import sampling, filt, tables, status, factors, codec, geometry
 
 
 def run(ck):
@@ -29,8 +29,10 @@ def run(ck):
     sampling.r10_transform_flags(ck, P, 'C02-R20')     # the rotate/scale fast paths trust the classification flags; the general path does not
     factors.r21_mmx_lane_consistency(ck, P)
     status.r_same_storage_needs_same_stride(ck, P, 'C02-R22')
+    status.r_same_storage_needs_same_offsets(ck, P, 'C02-R29')
     codec.r15_alphaless_fetchers_force_alpha(ck, P, 'C02-R23')  # the implementations' scanline readers agree on the alpha of alpha-less formats
     status.r_wide_only_properties_reach_the_flags(ck, P)
     sampling.r18_rotation_tiles(ck, P, 'C02-R25')        # the tiled C rotation fast paths against the general path
     filt.r13_phase_follows_the_pixel(ck, P, 'C02-R26')           # the C fast fetcher against the general one
     factors.r27_opacity_test_on_unpacked_pixel(ck, P)
+    geometry.r_wide_division_numerator(ck, P)        # the scaled fast paths' padding bounds against the general path
